@@ -446,6 +446,12 @@ func (r *Reader) readReflect(v interface{}) error {
 		}
 
 		// 创建切片并读取每个元素
+		// 每个受支持的元素至少占 1 字节：声明长度超过剩余字节数的切片不可能解码成功，
+		// 必须在分配之前拒绝，否则一个 4 字节的长度前缀就能让解码端申请数十 GB 内存。
+		if int(length) > r.RemainingSize() {
+			r.err = io.ErrUnexpectedEOF
+			return r.err
+		}
 		slice := reflect.MakeSlice(rv.Type(), int(length), int(length))
 		for i := 0; i < int(length); i++ {
 			elem := slice.Index(i)
